@@ -549,6 +549,7 @@ def evalLit (kind text : String) : M Val :=
     | .ok s => pure (.str s)
     | .bad => goPanic
     | .unsupported => unsupp)
+  | "imag" => guardErr unsupp      -- complex values are outside the model
   | _ => goPanic
 
 /-- result of a lookup (`Scope.Get`, `getValue`) turned into a value or a recorded error -/
@@ -692,7 +693,9 @@ def callFinish (fns : List (String × FnSpec)) (pv : Val) (vs : List Val) (ell :
   else invoke fns pv vs
 
 /-- a call after the callee: `margs` evaluates the argument list (VisitExpressionList) -/
-def callStep (fns : List (String × FnSpec)) (pv : Val) (noArgs ell : Bool) (margs : M (List Val)) : M Val :=
+def callStep (fns : List (String × FnSpec)) (pv : Val) (noArgs ell : Bool) (margs : M (List Val)) : M Val := do
+  -- a failed callee expression ends the evaluation of the call: nothing is looked up, nothing is called
+  if ← hasErr then return .nil
   if !isFuncVal pv then setErr
   else if noArgs then callFinish fns pv [] ell
   else do
